@@ -128,7 +128,15 @@ func ParsePutCommand(cmd redcon.Command) (*Put, error) {
 
 	args := cmd.Args[4:]
 	for len(args) > 0 {
-		switch arg := strings.ToUpper(util.BytesToString(args[0])); arg {
+		arg := strings.ToUpper(util.BytesToString(args[0]))
+		switch arg {
+		case "PX", "EX", "EXAT", "PXAT":
+			// These options take a value.
+			if len(args) < 2 {
+				return nil, fmt.Errorf("%w: %s needs a numerical argument", ErrInvalidArgument, arg)
+			}
+		}
+		switch arg {
 		case "NX":
 			p.SetNX()
 			args = args[1:]
